@@ -145,7 +145,8 @@ fn hash_int_function(
     let hash = hasher.finish();
 
     let result = if allow_leading_zero {
-        format!("{:0width$}", hash, width = length)
+        // The formatter rejects widths above u16::MAX with a panic
+        format!("{:0width$}", hash, width = length.min(u16::MAX as usize))
     } else {
         format!("{}", hash)
     };
